@@ -13,10 +13,10 @@ Open Scope bs_scope.
 Open Scope res_scope.
 
 (* ------------------------------------------------------------------ *)
-(* outcomes: a value satisfying P, or an admissible exception             *)
+(* outcomes: a value satisfying P, or an acceptable exception             *)
 
 Definition TT {A} : A -> Prop := fun _ => True.
-(* the admissible exceptions: the library's own ... *)
+(* the acceptable exceptions: the library's own ... *)
 Definition hl7_only (x : exn) : Prop := match x with HL7 _ => True | _ => False end.
 (* ... and, for a leaf layer that validates values, ValueError under STRICT only *)
 Definition hl7_or_value (lvl : level) (x : exn) : Prop :=
@@ -49,7 +49,7 @@ Lemma sp_post {A} (P Q : A -> Prop) r : sp P r -> (forall a, r = Ok a -> P a -> 
 Proof. destruct r as [a|x]; cbn; auto. Qed.
 Lemma sp_inv {A} (P : A -> Prop) r a : sp P r -> r = Ok a -> P a.
 Proof. intros H ->. exact H. Qed.
-(* the result is a value or an admissible exception *)
+(* the result is a value or an acceptable exception *)
 Lemma sp_cases {A} (P : A -> Prop) r : sp P r -> (exists a, r = Ok a /\ P a) \/ (exists x, r = Err x /\ Adm x).
 Proof. destruct r as [a|x]; cbn; intros H; [left; eauto|right; eauto]. Qed.
 (* `except InvalidName:` handlers *)
@@ -255,7 +255,7 @@ Proof.
     intros [dt st'] H. cbn. split; [triv|]. split; [now left|reflexivity].
 Qed.
 
-(* ---------- child admission only raises the library's exceptions ---------- *)
+(* ---------- child acceptance only raises the library's exceptions ---------- *)
 Lemma valid_child_complex_safe pn pdt pst kn kdt : sp TT (valid_child_complex t lvl pn pdt pst kn kdt).
 Proof.
   unfold valid_child_complex.
